@@ -199,6 +199,7 @@ def run(chk):
         chk.samples.append({"admin_api_history": [list(map(str, e)) for e in ev]})
         chk.tie("gateway still running after the admin history", g.alive(), g.log_tail())
 
+    s3_object_store(chk, gwbin)
     if not built:
         return
     text = ("From Coq Require Import String List ZArith Bool.\nFrom VGW Require Import Model.IamCache Spec.IamSpec Check.Common Check.IamCheck.\n"
@@ -222,6 +223,88 @@ def run(chk):
         key = "c17:lookup-in-flight-during-delete" if m["schedule"].startswith("inflight") else "c17:deleted-account-served:" + m["schedule"]
         chk.fail(key, "schedule %s: after delete-user returned, a lookup still answers %s" % (m["schedule"], m["final_lookup"]), m)
 
+
+
+class Relay:
+    """an HTTP relay in front of the object store that keeps the accounts; while fail is set, a GET of the accounts object is answered
+    with that status instead (the object store is briefly unavailable)"""
+    def __init__(self, target_port):
+        import http.server, socketserver, threading, http.client
+        relay = self
+        self.fail = None; self.failed = 0
+        class H(http.server.BaseHTTPRequestHandler):
+            protocol_version = "HTTP/1.1"
+            def log_message(self, *a): pass
+            def handle_one(self):
+                n = int(self.headers.get("Content-Length") or 0)
+                body = self.rfile.read(n) if n else b""
+                if relay.fail and self.command == "GET" and "users.json" in self.path:
+                    relay.failed += 1
+                    doc = b'<?xml version="1.0" encoding="UTF-8"?><Error><Code>ServiceUnavailable</Code><Message>Please reduce your request rate.</Message></Error>'
+                    self.send_response(relay.fail); self.send_header("Content-Type", "application/xml"); self.send_header("Content-Length", str(len(doc))); self.end_headers(); self.wfile.write(doc); return
+                c = http.client.HTTPConnection("127.0.0.1", target_port, timeout=20)
+                c.putrequest(self.command, self.path, skip_host=True, skip_accept_encoding=True)
+                for k, v in self.headers.items(): c.putheader(k, v)
+                c.endheaders(); c.send(body) if body else None
+                r = c.getresponse(); data = r.read()
+                self.send_response(r.status)
+                for k, v in r.getheaders():
+                    if k.lower() not in ("transfer-encoding", "content-length", "connection"): self.send_header(k, v)
+                self.send_header("Content-Length", str(len(data))); self.end_headers()
+                if self.command != "HEAD": self.wfile.write(data)
+                c.close()
+            do_GET = do_PUT = do_HEAD = do_DELETE = do_POST = handle_one
+        class S(socketserver.ThreadingMixIn, http.server.HTTPServer):
+            daemon_threads = True
+        self.srv = S(("127.0.0.1", 0), H); self.port = self.srv.server_address[1]
+        threading.Thread(target=self.srv.serve_forever, daemon=True).start()
+    def close(self):
+        self.srv.shutdown(); self.srv.server_close()
+
+
+def s3_object_store(chk, gwbin):
+    """accounts kept as one object in an S3 bucket (--s3-iam-*), cache switched off: an account change made while the object store
+    is briefly unavailable is refused or takes effect, and never costs the accounts created before"""
+    with gw.Site({"iam": False}, name="c17e") as se:
+        ge = se.gateway(gwbin)
+        E = s3c.Client(ge.port, "root", "rootsecret")
+        chk.require(E.req("PUT", "/iambkt").status == 200, "c17:setup", "creating the bucket that holds the accounts failed")
+        relay = Relay(ge.port)
+        try:
+            with gw.Site({"iam": False}, name="c17g") as sg:
+                g = sg.gateway(gwbin, global_args=["--s3-iam-access", "root", "--s3-iam-secret", "rootsecret", "--s3-iam-region", "us-east-1", "--s3-iam-bucket", "iambkt",
+                                                   "--s3-iam-endpoint", "http://127.0.0.1:%d" % relay.port, "--s3-iam-noverify", "--iam-cache-disable"])
+                R = s3c.Client(g.port, "root", "rootsecret")
+                def users():
+                    r = R.req("PATCH", "/list-users")
+                    return sorted(a.findtext("Access") for a in r.xml().iter("Accounts")) if r.status == 200 and r.xml() is not None else ("error", r.status, r.code)
+                def create(a): return R.req("PATCH", "/create-user", body=admin_xml(a, a + "-secret", "userplus", 0, 0))
+                ok = create("u1").status in (200, 201) and create("u2").status in (200, 201)
+                chk.require(ok and users() == ["u1", "u2"], "c17:setup", "creating accounts in the S3 object store failed: %s" % (users(),))
+                R.req("PUT", "/bk1"); U1 = s3c.Client(g.port, "u1", "u1-secret")
+                chk.require(U1.req("PUT", "/u1bucket").status == 200, "c17:setup", "an account of the S3 object store cannot create a bucket")
+                expect = ["u1", "u2"]
+                for status, opname in ((503, "create"), (500, "create"), (503, "update"), (500, "delete"), (403, "create")):
+                    relay.fail = status
+                    if opname == "create":
+                        nm = "n%d" % len(expect); r = create(nm)
+                        if r.status in (200, 201): expect = sorted(expect + [nm])
+                    elif opname == "update":
+                        r = R.req("PATCH", "/update-user", query={"access": "u2"}, body=b"<MutableProps><Secret>u2-new</Secret></MutableProps>")
+                    else:
+                        r = R.req("PATCH", "/delete-user", query={"access": "u2"})
+                        if r.status == 200: expect = [x for x in expect if x != "u2"]
+                    relay.fail = None
+                    got = users(); still = U1.req("GET", "/u1bucket", query={"list-type": "2"}).status
+                    chk.case(("s3-iam-store", opname, status), True); chk.traces += 1
+                    chk.count("s3-iam-store:%s-while-%d:%d" % (opname, status, r.status))
+                    if got != expect or still != 200:
+                        chk.fail("c17:accounts-lost:s3-object-store", "accounts kept in an S3 object: while GETs of the accounts object were answered %d, %s-user answered %d %s; afterwards list-users shows %s (acknowledged so far: %s) and a request by u1 answers %d"
+                                 % (status, opname, r.status, r.code, got, expect, still), {"injected_status": status, "operation": opname, "answer": r.status, "list_users": got, "acknowledged": expect, "request_by_u1": still})
+                        break
+                chk.tie("gateway with the S3 object IAM store still running (%d injected failures)" % relay.failed, g.alive(), g.log_tail())
+        finally:
+            relay.close()
 
 def replay(chk, data):
     print(json.dumps(data.get("replay"), indent=1, default=str))
